@@ -51,8 +51,10 @@ def history_run(base_seed: int, prop: str, index: int, tier: str, *, nt=None,
     for opid in range(cfg["length"]):
         op = gen_op(ops_rng, fault_rng, cfg, w, opid)
         if avoiding:
-            trig = make_plan(w, op).trigger
-            if any(rx.search(trig) for rx in avoid):
+            pl = make_plan(w, op)
+            # a refused operation cannot manifest an open finding: only avoid
+            # operations that would be executed with effect
+            if pl.contract == "OK" and any(rx.search(pl.trigger) for rx in avoid):
                 res.avoided_ops += 1
                 continue
         ops.append(op)
